@@ -297,6 +297,20 @@ def marg_bits(rep, ex: Explorer):
                     rep.check(okv, "MARG.bits", f"{site}:{ev.node.lineno}", "first extension", "the first extension of a reduced world contributes its own rank", extracted=repr(val), required="rank of the world", function=site)
                 else:
                     okv = isinstance(val, LinV) and len(val.lin[0]) == 1 and isinstance(val.lin[0][0][0], tuple) and val.lin[0][0][0][0] == "min" and stored in val.lin[0][0][0][1] and len(val.lin[0][0][0][1]) == 2
+                    if not okv and isinstance(val, Sym):
+                        # the minimum written as an explicit comparison: the stored value is the smaller of the two on this path
+                        for k, v in d.items():
+                            if k[0] == "cmp" and k[1] == "<" and isinstance(v, bool):
+                                a_, b_ = k[2], k[3]
+                                a_new, b_new = a_ == stored, b_ == stored
+                                a_old = isinstance(a_, tuple) and a_[:1] == ("dictitem",)
+                                b_old = isinstance(b_, tuple) and b_[:1] == ("dictitem",)
+                                is_new = val.label == stored
+                                is_old = isinstance(val.label, tuple) and val.label[:1] == ("dictitem",)
+                                if a_new and b_old:      # new < old decided v
+                                    okv = (is_new and v) or (is_old and not v)
+                                elif a_old and b_new:    # old < new decided v
+                                    okv = (is_old and v) or (is_new and not v)
                     rep.check(okv, "MARG.bits", f"{site}:{ev.node.lineno}", "collision", "further extensions keep the minimum of the stored and the new rank", extracted=repr(val)[:160], required="min(stored, rank of the world)", function=site)
         for ev, Q in iter_events(p.events):
             if ev.kind == "init_custom":
